@@ -228,8 +228,9 @@ class PyFindAllClasses:
     def value(tree):
         return [node for node in tree.walk if isinstance(node, ast.ClassDef)]
 
-    def inv0(tree, classes, done, rest):
-        return classes == [node for node in done if isinstance(node, ast.ClassDef)] and done + rest == tree.walk
+    def inv0(tree, classes, rest):
+        return [node for node in tree.walk if isinstance(node, ast.ClassDef)] == \
+            classes + [node for node in rest if isinstance(node, ast.ClassDef)]
 
 
 @contract(PA + "analyze_class", props=["C16"], types=dict(class_node=PyNode, source=Str, config=SRPConfigT),
@@ -246,3 +247,246 @@ class PyAnalyzeClass:
     def ensures_header_position(class_node, source, config, result):
         return (result["class_name"] == class_node.name and result["line"] == class_node.lineno
                 and result["column"] == class_node.col_offset)
+
+
+PyAnalyzerT = Rec("PythonSRPAnalyzer", cls=PA + "PythonSRPAnalyzer")
+
+
+@contract(PA + "PythonSRPAnalyzer.find_all_classes", props=["C16"], types=dict(self=PyAnalyzerT, tree=PyNode),
+          returns=SeqOf(PyNode))
+class PyWrapFindAllClasses:
+    def requires(self, tree):
+        return tree is not None
+
+    def value(self, tree):
+        return [node for node in tree.walk if isinstance(node, ast.ClassDef)]
+
+
+@contract(PA + "PythonSRPAnalyzer.analyze_class", props=["C16"],
+          types=dict(self=PyAnalyzerT, class_node=PyNode, source=Str, config=SRPConfigT), returns=ClassMetrics)
+class PyWrapAnalyzeClass:
+    def requires(self, class_node, source, config):
+        return class_node is not None
+
+    def ensures_metrics(self, class_node, source, config, result):
+        return (result["method_count"] == py_method_count(class_node.body)
+                and result["loc"] == py_code_line_count(py_class_lines(class_node, source))
+                and result["has_keyword"] == has_keyword(class_node.name, config.keywords))
+
+    def ensures_header_position(self, class_node, source, config, result):
+        return (result["class_name"] == class_node.name and result["line"] == class_node.lineno
+                and result["column"] == class_node.col_offset)
+
+
+# ====================================================================================== typescript_metrics_calculator.py
+TM = "src/linters/srp/typescript_metrics_calculator.py::"
+
+
+def first_child_of_type(s: SeqOf(TSNode), k: Str) -> TSNode:
+    if len(s) == 0:
+        return None
+    if s[0].type == k:
+        return s[0]
+    return first_child_of_type(s[1:], k)
+
+
+def ts_method_name(node):
+    """Name of a method_definition: text of its first property_identifier child (None if it has none)."""
+    c = first_child_of_type(node.children, "property_identifier")
+    return None if c is None else c.text.decode()
+
+
+def ts_is_public_method(node):
+    """Property text / docs: a public method is a method_definition that is neither the constructor nor
+    underscore-prefixed."""
+    return (node.type == "method_definition" and ts_method_name(node) != "constructor"
+            and not (ts_method_name(node) is not None and ts_method_name(node) != ""
+                     and ts_method_name(node).startswith("_")))
+
+
+def ts_method_count(class_node):
+    body = first_child_of_type(class_node.children, "class_body")
+    return 0 if body is None else sum(1 for child in body.children if ts_is_public_method(child))
+
+
+def ts_has_text(n: TSNode) -> Bool:
+    return n is not None and n.text is not None
+
+
+def ts_idents_have_text(s: SeqOf(TSNode)) -> Bool:
+    """tree-sitter invariant: nodes obtained from a parsed source carry their text (trusted)."""
+    return len(s) == 0 or ((s[0].type != "property_identifier" or s[0].text is not None) and ts_idents_have_text(s[1:]))
+
+
+@contract(TM + "_get_class_body", props=["C16"], types=dict(class_node=TSNode, child=TSNode), returns=TSNode)
+class TsGetClassBody:
+    def requires(class_node):
+        return class_node is not None
+
+    def value(class_node):
+        return first_child_of_type(class_node.children, "class_body")
+
+    def inv0(class_node, rest):
+        return first_child_of_type(class_node.children, "class_body") == first_child_of_type(rest, "class_body")
+
+
+@contract(TM + "_get_method_name", props=["C16"], types=dict(node=TSNode, child=TSNode), returns=Opt(Str))
+class TsGetMethodName:
+    def requires(node):
+        return node is not None and ts_idents_have_text(node.children)
+
+    def value(node):
+        return ts_method_name(node)
+
+    def inv0(node, rest):
+        return first_child_of_type(node.children, "property_identifier") == first_child_of_type(rest, "property_identifier") \
+            and ts_idents_have_text(rest)
+
+
+@contract(TM + "_is_countable_method", props=["C16"], types=dict(node=TSNode, method_name=Opt(Str)), returns=Bool)
+class TsIsCountableMethod:
+    def requires(node):
+        return node is not None and ts_idents_have_text(node.children)
+
+    def value(node):
+        return ts_is_public_method(node)
+
+
+def ts_methods_have_text(s: SeqOf(TSNode)) -> Bool:
+    return len(s) == 0 or (ts_idents_have_text(s[0].children) and ts_methods_have_text(s[1:]))
+
+
+def ts_class_wf(class_node):
+    """Trusted tree-sitter fact: the identifiers of the class members carry their text."""
+    return class_node is not None and (first_child_of_type(class_node.children, "class_body") is None
+                                       or ts_methods_have_text(first_child_of_type(class_node.children, "class_body").children))
+
+
+def ts_count_from(s: SeqOf(TSNode)) -> Int:
+    if len(s) == 0:
+        return 0
+    return (1 if ts_is_public_method(s[0]) else 0) + ts_count_from(s[1:])
+
+
+@lemma(props=["C16"], types=dict(s=SeqOf(TSNode)), name="ts-count-is-public-method-count")
+def ts_count_lemma(s):
+    if len(s) == 0:
+        return ts_count_from(s) == sum(1 for child in s if ts_is_public_method(child))
+    ih(ts_count_lemma, s[1:])
+    return ts_count_from(s) == sum(1 for child in s if ts_is_public_method(child))
+
+
+@contract(TM + "count_methods", props=["C16"], types=dict(class_node=TSNode, class_body=TSNode, method_count=Int, child=TSNode),
+          returns=Int)
+class TsCountMethods:
+    def requires(class_node):
+        return ts_class_wf(class_node)
+
+    def lemmas_public_methods(class_node):
+        return implies(first_child_of_type(class_node.children, "class_body") is not None,
+                       ts_count_lemma(first_child_of_type(class_node.children, "class_body").children))
+
+    def ensures_public_methods(class_node, result):
+        return result == ts_method_count(class_node)
+
+    def inv0(class_node, class_body, method_count, rest):
+        return class_body is not None and class_body == first_child_of_type(class_node.children, "class_body") \
+            and ts_count_from(class_body.children) == method_count + ts_count_from(rest) and ts_methods_have_text(rest)
+
+
+def ts_is_code_line(line):
+    """docs/srp-linter.md (How it works, 3): lines of code exclude blank lines and comments."""
+    return line.strip() != "" and not line.strip().startswith("//")
+
+
+def ts_node_lines(node, source):
+    return source.split("\n")[node.start_point[0]:node.end_point[0] + 1]
+
+
+def ts_code_line_count(node, source):
+    return sum(1 for line in ts_node_lines(node, source) if ts_is_code_line(line))
+
+
+def ts_line_span(node):
+    """What the code counts (known finding C16-ts-loc-span): every line from the header to the closing brace."""
+    return node.end_point[0] - node.start_point[0] + 1
+
+
+@contract(TM + "count_loc", props=["C16"], types=dict(class_node=TSNode, source=Str), returns=Int)
+class TsCountLoc:
+    def requires(class_node, source):
+        # tree-sitter facts: the node ends after it starts and lies inside the source text
+        return (class_node is not None and class_node.start_point[0] <= class_node.end_point[0]
+                and class_node.end_point[0] < len(source.split("\n")))
+
+    def ensures_code_lines(class_node, source, result):
+        # documented metric (expected to fail: known finding C16-ts-loc-span)
+        return result == ts_code_line_count(class_node, source)
+
+    def witness_code_lines():
+        # the class of the native reproduction (known_findings.json, C16-ts-loc-span): 3 code lines, span 5
+        return {"class_node": {"__node__": "n1", "type": "class_declaration", "start_point": [0, 0], "end_point": [4, 1],
+                               "children": [], "text": None},
+                "source": "class Foo {\n  a(): void {}\n\n  // comment\n}"}
+
+    def ensures_line_span(class_node, source, result):
+        # finding-adjusted: the raw line span, blank and comment lines included
+        return result == ts_line_span(class_node)
+
+
+TsCalcT = Rec("TypeScriptMetricsCalculator", cls=TM + "TypeScriptMetricsCalculator")
+
+
+@contract(TM + "TypeScriptMetricsCalculator.count_methods", props=["C16"], types=dict(self=TsCalcT, class_node=TSNode), returns=Int)
+class TsCalcCountMethods:
+    def requires(self, class_node):
+        return ts_class_wf(class_node)
+
+    def value(self, class_node):
+        return ts_method_count(class_node)
+
+
+@contract(TM + "TypeScriptMetricsCalculator.count_loc", props=["C16"], types=dict(self=TsCalcT, class_node=TSNode, source=Str),
+          returns=Int)
+class TsCalcCountLoc:
+    def requires(self, class_node, source):
+        return class_node is not None and class_node.start_point[0] <= class_node.end_point[0]
+
+    def value(self, class_node, source):
+        return ts_line_span(class_node)
+
+
+# ====================================================================================== typescript_analyzer.py
+from contracts.c01_ts_base import ts_collect_type, ts_identifier_name  # noqa: E402
+
+TA = "src/linters/srp/typescript_analyzer.py::"
+TsAnalyzerT = Rec("TypeScriptSRPAnalyzer", cls=TA + "TypeScriptSRPAnalyzer", tree_sitter_available=Bool,
+                  metrics_calculator=TsCalcT)
+
+
+def ts_class_name(class_node):
+    return "UnnamedClass" if ts_identifier_name(class_node) == "anonymous" else ts_identifier_name(class_node)
+
+
+@contract(TA + "TypeScriptSRPAnalyzer.find_all_classes", props=["C16"], types=dict(self=TsAnalyzerT, root_node=TSNode),
+          returns=SeqOf(TSNode))
+class TsFindAllClasses:
+    """Every class_declaration of the tree exactly once, in document order."""
+    def ensures_all_classes(self, root_node, result):
+        return implies(root_node is not None, result == ts_collect_type(root_node, "class_declaration"))
+
+
+@contract(TA + "TypeScriptSRPAnalyzer.analyze_class", props=["C16"],
+          types=dict(self=TsAnalyzerT, class_node=TSNode, source=Str, config=SRPConfigT), returns=ClassMetrics)
+class TsAnalyzeClass:
+    def requires(self, class_node, source, config):
+        return ts_class_wf(class_node) and class_node.start_point[0] <= class_node.end_point[0]
+
+    def ensures_metrics(self, class_node, source, config, result):
+        return (result["method_count"] == ts_method_count(class_node)
+                and result["loc"] == ts_line_span(class_node)
+                and result["has_keyword"] == has_keyword(ts_class_name(class_node), config.keywords))
+
+    def ensures_header_position(self, class_node, source, config, result):
+        return (result["class_name"] == ts_class_name(class_node) and result["line"] == class_node.start_point[0] + 1
+                and result["column"] == class_node.start_point[1])
